@@ -211,6 +211,41 @@ Section Idempotent.
         intros H; inversion H; subst; unfold poling_new; try destruct (nltb R_ops _ _);
         repeat split; auto using opt_signal_collinear; try discriminate; try (intros; congruence).
   Qed.
+  (* ... and the rest of what is NOT optimised: the crystal's azimuth, phase-matching type and propagation mode, the signal's
+     polarization, the apodization of the poling; and what the new idler is: energy-conserving wavelength, the type's idler
+     polarization, azimuth opposite to the (optimised) signal's *)
+  Theorem optimum_keeps_more s s' nf :
+    try_as_optimum s = Ok (s', nf) ->
+    cs_phi (s_crystal s') = cs_phi (s_crystal s) /\ cs_pm (s_crystal s') = cs_pm (s_crystal s) /\
+    cs_counter (s_crystal s') = cs_counter (s_crystal s) /\
+    b_pol (s_signal s') = b_pol (s_signal s) /\
+    b_pol (s_idler s') = idler_polarization (cs_pm (s_crystal s)) /\
+    b_phi (s_idler s') = normalize_angle R_ops (nadd R_ops (b_phi (s_signal s')) (npi R_ops)) /\
+    b_wavelength (s_idler s') = idler_wavelength R_ops (s_signal s') (s_pump s) /\
+    match s_pp s, s_pp s' with
+    | PolOff, PolOff => True
+    | PolOn _ _ a, PolOn _ _ a' => a' = a
+    | _, _ => False
+    end.
+  Proof.
+    unfold Config.try_as_optimum. cbv zeta.
+    destruct (opt_crystal_poling R_ops K minpos s (opt_signal R_ops s)) as [[[cs pp] nfp] | |] eqn:Hcp; cbn [bind fst snd]; try discriminate.
+    destruct (idler_optimum R_ops K (opt_signal R_ops s) (s_pump s) cs (if op then s_pp s else pp)) as [[idler0 nfi] | |] eqn:Hi; cbn [bind fst snd]; try discriminate.
+    intros H. inversion H. subst s' nf. clear H. unfold finish_optimum.
+    cbn [s_signal s_idler s_pump s_crystal s_pp set_waist b_pol b_phi b_wavelength].
+    destruct (opt_signal_keeps s) as (_ & _ & Hpol).
+    assert (Hid : b_pol idler0 = idler_polarization (cs_pm cs) /\
+                  b_phi idler0 = normalize_angle R_ops (nadd R_ops (b_phi (opt_signal R_ops s)) (npi R_ops)) /\
+                  b_wavelength idler0 = idler_wavelength R_ops (opt_signal R_ops s) (s_pump s)).
+    { revert Hi. unfold idler_optimum. destruct (signal_le_pump R_ops _ _); [discriminate |].
+      destruct (o_idler_theta K _ _ _ _); intros H; inversion H; subst; cbn [beam_new b_pol b_phi b_wavelength]; repeat split; reflexivity. }
+    destruct Hid as (Hp & Hph & Hw).
+    revert Hcp. unfold opt_crystal_poling. destruct (s_pp s) as [| per0 sg0 a].
+    - destruct (optimum_theta R_ops K (s_crystal s) _ _); cbn [bind]; try discriminate. intros H; inversion H; subst cs pp nfp.
+      cbn [set_crystal_theta cs_phi cs_pm cs_counter] in *. repeat split; auto.
+    - destruct (optimum_poling_period R_ops K minpos _ _ _) as [[per | []] | |]; cbn [bind]; try discriminate;
+        intros H; inversion H; subst cs pp nfp; unfold poling_new; try destruct (nltb R_ops _ _); repeat split; auto.
+  Qed.
 End Idempotent.
 
 (* FULL STRENGTH for the code as it is now (flags read off the source): the idler waist position is computed from the NEW idler,
